@@ -77,6 +77,8 @@ mod latest_height_stream;
 mod reconstruct;
 mod reporting;
 mod verify;
+#[cfg(all(test, feature = "verif"))]
+mod verif;
 
 pub(crate) use builder::Builder;
 use latest_height_stream::LatestHeightStream;
